@@ -39,6 +39,9 @@ pub fn check(tier: Tier) -> Check {
     // a cancellation is a deviation here (C15 explores cancellation for its own sake)
     parts.push(Part::new("C05/ops", json!({"depth": tier.pick(5, 6), "cancel": true}), 1, tier.pick(40, 600)));
     parts.push(Part::new("C05/ops", json!({"depth": tier.pick(4, 5), "cancel": true}), 2, tier.pick(40, 600)));
+    // requests made before connect(): they are served, and acknowledged, like the others
+    parts.push(Part::new("C05/ops", json!({"depth": tier.pick(5, 6), "early": 3}), 0, tier.pick(40, 600)));
+    parts.push(Part::new("C05/ops", json!({"depth": tier.pick(4, 5), "early": 4}), 1, tier.pick(40, 600)));
     // two operations outstanding whose packet identifiers differ in exactly one bit
     parts.push(Part::new("C05/bits", json!({}), 0, 120));
     Check {
